@@ -40,6 +40,9 @@ func (frame *SynReplyFrame) read(h ControlFrameHeader, f *Framer) error {
 
 func (frame *RstStreamFrame) read(h ControlFrameHeader, f *Framer) error {
 	frame.CFHeader = h
+	if frame.CFHeader.length != 8 {
+		return &Error{InvalidControlFrame, 0}
+	}
 	if err := binary.Read(f.r, binary.BigEndian, &frame.StreamId); err != nil {
 		return err
 	}
@@ -65,6 +68,9 @@ func (frame *SettingsFrame) read(h ControlFrameHeader, f *Framer) error {
 	if numSettings > MaxNumSettings {
 		return fmt.Errorf("SettingsFrame with invalid numSettings: %d", numSettings)
 	}
+	if frame.CFHeader.length != 4+8*numSettings {
+		return &Error{InvalidControlFrame, 0}
+	}
 
 	frame.FlagIdValues = make([]SettingsFlagIdValue, numSettings)
 	for i := uint32(0); i < numSettings; i++ {
@@ -82,6 +88,9 @@ func (frame *SettingsFrame) read(h ControlFrameHeader, f *Framer) error {
 
 func (frame *PingFrame) read(h ControlFrameHeader, f *Framer) error {
 	frame.CFHeader = h
+	if frame.CFHeader.length != 4 {
+		return &Error{InvalidControlFrame, 0}
+	}
 	if err := binary.Read(f.r, binary.BigEndian, &frame.Id); err != nil {
 		return err
 	}
